@@ -11,6 +11,7 @@ import (
 	"verifharness/common"
 	_ "verifharness/engines/lookup"
 	_ "verifharness/engines/net"
+	_ "verifharness/engines/headerproof"
 	_ "verifharness/engines/store"
 	_ "verifharness/engines/table"
 )
